@@ -382,15 +382,16 @@ def cases(draw, mode: str):
             s["cuts"] = draw(st.lists(st.integers(1, 600), min_size=1, max_size=4))
         s["sse_order"] = draw(st.sampled_from(["202-first", "event-first"]))
         if mode == "A":
-            s["id"] = draw(st.one_of(st.sampled_from([f"r{k}", f"{100 + k}", f"é{k}", 0, ""]), st.integers(1, 2**53).map(lambda v, k=k: v * 8 + k)))
+            s["id"] = draw(st.one_of(st.sampled_from([f"r{k}", f"{100 + k}", f"é{k}", 0, "", 7, "7", "0"]), st.integers(1, 2**53).map(lambda v, k=k: v * 8 + k)))
         steps.append(s)
     if mode == "A":
-        # ids must be unique within a conversation (also as strings)
+        # ids must be unique within a conversation as JSON values; 7 and "7" are two different ids and may both occur
         seen = set()
         for k, s in enumerate(steps):
-            if str(s["id"]) in seen:
+            key = json.dumps(s["id"])
+            if key in seen:
                 s["id"] = f"uniq-{k}"
-            seen.add(str(s["id"]))
+            seen.add(json.dumps(s["id"]))
     return {"steps": steps, "pass": mode}
 
 
@@ -417,6 +418,14 @@ def job_cuts(col: Collector, seed: int, tier: str, shard: int, nshards: int) -> 
                 case = {"steps": steps, "pass": mode}
                 col.record(case, check(case))
     if shard == 0:
+        # ids that differ only in JSON type, or that are falsy, within one conversation (each order)
+        import itertools as _it
+
+        for ids in _it.permutations([7, "7", 0, "0", ""], 3):
+            steps = [{"op": "ping", "notifs": k % 2, "text": "t", "payload": {}, "reply": "result", "sse_order": ["202-first", "event-first"][k % 2], "id": i_} for k, i_ in enumerate(ids)]
+            case = {"steps": steps, "pass": "A"}
+            col.record(case, check(case))
+        col.exhaustive_parts.append("all ordered triples of the ids 7, \"7\", 0, \"0\", \"\" in one conversation on every carrier")
         col.exhaustive_parts.append("a two-step conversation with non-ASCII text: the server's bytes cut at every offset 1..699 (one cut; two adjacent cuts) on every carrier, both passes")
 
 
